@@ -62,6 +62,8 @@ struct Params {
     cons_ops: Vec<u8>,
     early_drop: bool,
     prod_len_calls: bool,
+    /// aimed mode: the consumer is held up at this schedule point of its first operations
+    stall_at: Option<u32>,
 }
 
 fn gen(seed: u64) -> Params {
@@ -79,8 +81,11 @@ fn gen(seed: u64) -> Params {
         8 => 3 * block - 4 + r.below(6) as usize,
         _ => r.below(3 * block as u64) as usize,
     };
-    let leftover = r.below(4) as usize;
-    let n_ops = total * 2 + 6 + r.below(8) as usize;
+    // values already queued when the concurrent phase starts: usually a few, sometimes a backlog of
+    // one to two blocks (a consumer that is a whole block ring behind: the producer is then about
+    // to reuse the very block the consumer is still reading)
+    let leftover = if r.chance(1, 4) { (block - 4 + r.below(block as u64 + 8) as usize).min(2 * block + 2) } else { r.below(4) as usize };
+    let n_ops = total * 2 + 6 + r.below(8) as usize + leftover / 3;
     let cons_ops: Vec<u8> = (0..n_ops)
         .map(|_| match r.below(100) {
             0..=44 => 0,  // pop
@@ -90,6 +95,21 @@ fn gen(seed: u64) -> Params {
             _ => 4,       // is_empty
         })
         .collect();
+    // aimed (spsc): no spare block in the ring (the consumer never left the first block), a
+    // backlog that ends one to three pushes before a block boundary, and a consumer that starts
+    // with bulk_pops: the producer's boundary push then asks for a block exactly while the
+    // consumer finishes the oldest one
+    let (preroll, leftover, cons_ops, stall_at) = if spsc && r.chance(1, 4) {
+        let pre = r.below(32) as usize;
+        let j = r.below(3) as usize;
+        let mut ops = cons_ops;
+        for o in ops.iter_mut().take(3) {
+            *o = 1;
+        }
+        (pre, 32 + (31 - pre) - j, ops, Some(r.below(10) as u32))
+    } else {
+        (preroll, leftover, cons_ops, None)
+    };
     Params {
         spsc,
         producers,
@@ -99,6 +119,7 @@ fn gen(seed: u64) -> Params {
         cons_ops,
         early_drop: r.chance(1, 5),
         prod_len_calls: !spsc && r.chance(1, 3),
+        stall_at,
     }
 }
 
@@ -114,6 +135,10 @@ pub fn swarm() -> Swarm {
 pub fn run(seed: u64, mut cfg_override: impl FnMut(&mut engine::Cfg)) -> ! {
     let p = gen(seed);
     let mut cfg = swarm_cfg(seed, &swarm());
+    if p.stall_at.is_some() {
+        // time passes while the producer runs, the held-up consumer comes back
+        cfg.tick_ns = 25;
+    }
     cfg_override(&mut cfg);
     engine::init(cfg);
     engine::set_extra("params", crate::engine::json_str(&format!("{:?}", p)));
@@ -172,7 +197,11 @@ pub fn run(seed: u64, mut cfg_override: impl FnMut(&mut engine::Cfg)) -> ! {
         let hist = hist.clone();
         let ops = p.cons_ops.clone();
         let early = p.early_drop;
+        let stall_at = p.stall_at;
         engine::spawn("consumer", move || {
+            if let Some(n) = stall_at {
+                engine::stall_self_at(n, 3_000);
+            }
             let mut got = 0usize;
             for (k, op) in ops.iter().enumerate() {
                 if got == total || (early && k > ops.len() / 3) {
